@@ -403,6 +403,9 @@ var unaryNumeric = []string{"abs", "ceil", "floor", "round"}
 var binaryNumeric = []string{"plus", "minus", "times", "divided_by", "modulo", "round"}
 
 func numfStream(r *Run) {
+	if r.Shard == 0 {
+		numfExtraFamily(r)
+	}
 	g := NewRNG(r.Seed, "numf")
 	emit := func(x *V, steps ...numStep) {
 		if !r.Mine() {
